@@ -20,6 +20,7 @@ import Gotlcp.Lemmas.C06Compose
 import Gotlcp.Lemmas.C06Handshake
 import Gotlcp.Model.RecordTxFacts
 import Gotlcp.Model.RecordRxFacts
+import Gotlcp.Model.RecordRxStall
 import Gotlcp.Generated.Facts
 import Gotlcp.Tie.RecordSize
 
@@ -867,5 +868,90 @@ example :
     (Src.tlcp.Conn.maxPayloadSizeForWrite c 23#8).toOption = some ({ c with packetsSent := 3#64 }, 3453) := by
   intro c
   exact ⟨Matches.cbc ⟨16⟩ rfl (by decide) (by decide), by decide, by decide, by decide⟩
+
+/-! ### read time-outs (a transport that stalls while the reader's deadline fires) -/
+
+/-- **A time-out inside `readFromUntil` loses nothing.**  On a transport that has not ended and
+whose deadline had not passed before the call, `readFromUntil(n)` can only fail by running out of
+chunks (the transport `Read` that finds nothing blocks until the read deadline fires).  Whatever
+was buffered (`raw`) and however many chunks had arrived by then — part of a record header, a
+header and any number of segments of the body — after the failing call `c.rawInput` holds exactly
+`raw` followed by all of them, in order (`bytes.Buffer.ReadFrom` appends each chunk as it
+receives it), and the transport has handed over nothing else. -/
+theorem C06_timeout_keeps_bytes (n : Nat) (raw : Bytes) (cs : List Bytes)
+    (h : (fill true false false n raw cs).2.2 = false) :
+    (fill true false false n raw cs).1 = raw ++ cs.flatten ∧ (fill true false false n raw cs).2.1 = [] := by
+  have hnil := fill_fail_nil false n cs raw h
+  have hall := fill_all true false false n cs raw
+  rw [hnil] at hall
+  simp only [List.flatten_nil, List.append_nil] at hall
+  exact ⟨hall, hnil⟩
+
+theorem parseOne_err (P : RecordRx.Params) (w : Bytes) (e : RxErr) (h : (parseOne P w).1 = .err e) :
+    (parseOne P w).2 = w := by
+  unfold parseOne at h ⊢
+  by_cases h1 : w.length < P.recordHeaderLen
+  · simp only [h1, ↓reduceIte]
+  · simp only [h1, ↓reduceIte] at h ⊢
+    split
+    · rfl
+    · split
+      · rfl
+      · split
+        · rfl
+        · rename_i h2 h3 h4
+          simp only [h2, h3, h4, ↓reduceIte] at h
+          cases h
+
+/-- **Framing that fails — in particular by a time-out — leaves the stream intact**: buffer plus
+transport still hold every byte that was to come, in order. -/
+theorem C06_timeout_keeps_stream (r : Raw) (hx : r.expired = false) (e : RxErr)
+    (h : (nextFrame factsRx r).1 = .err e) : (nextFrame factsRx r).2.all = r.all := by
+  have hp := nextFrame_parse factsRx (by decide) (by decide) r hx
+  rw [hp.2]
+  exact parseOne_err _ _ e (hp.1 ▸ h)
+
+/-- **Time-outs commute with delivery.**  The transport stalls behind the chunks of `r` (any
+bytes already buffered, any chunks: the stall may lie anywhere in a header or a body), the
+reader's `Read` times out (`nextFrameS`), the reader extends its deadline and the transport
+delivers the rest `b` (any chunks; the end reported with the last chunk or after it): the records
+framed from then on are exactly those of a transport that delivered `r`'s chunks and `b` without
+stalling.  With `C06_segmentation_independent` and `C06_read_any_buffers` (whose statements are
+about the bytes still to come): a reader that extends its deadline after every time-out reads
+the stream a reader without deadlines reads. -/
+theorem C06_timeout_resume (r r' : Raw) (hx : r.expired = false)
+    (h : nextFrameS factsRx r = (.err .timeout, r')) (b : List Bytes) (e : Bool) (fuel : Nat) :
+    r'.all = r.all ∧
+    frames factsRx fuel { r' with chunks := r'.chunks ++ b, eofWithLast := e } =
+      frames factsRx fuel { r with chunks := r.chunks ++ b, eofWithLast := e } := by
+  have key : ∃ e0, (nextFrame factsRx r).1 = .err e0 ∧ (nextFrame factsRx r).2 = r' := by
+    unfold nextFrameS at h
+    split at h
+    · rename_i r0 heq
+      exact ⟨.eof, by rw [heq], by rw [heq]; exact (Prod.mk.inj h).2⟩
+    · rename_i r0 heq
+      exact ⟨.unexpectedEOF, by rw [heq], by rw [heq]; exact (Prod.mk.inj h).2⟩
+    · exact ⟨.timeout, by rw [h], by rw [h]⟩
+  obtain ⟨e0, h1, h2⟩ := key
+  have hall : r'.all = r.all := h2 ▸ C06_timeout_keeps_stream r hx e0 h1
+  have hx' : r'.expired = false := by rw [← h2, (nextFrame_flags factsRx r).1, hx]
+  refine ⟨hall, ?_⟩
+  refine C06_segmentation_independent fuel _ _ hx' hx ?_
+  simp only [Raw.all, List.flatten_append, ← List.append_assoc] at hall ⊢
+  rw [hall]
+
+/-- what the theorems exclude: a `readFromUntil` that commits the received bytes only when the
+whole request was satisfied drops the three header bytes that arrived before the time-out; the
+same stream — one record `aa bb` and a close-notify, the transport stalling after 3 bytes and
+after 9 — is read exactly by the model of the code as written, two time-outs included. -/
+example :
+    (fill true false false 5 [] [[23, 1, 1]]).1 = [23, 1, 1] ∧ (fillDropping 5 [] [[23, 1, 1]]).1 = [] ∧
+    (let dec : Dec := fun _ _ b => some b
+     let t0 := Stalled.start [[[23, 1, 1]], [[0, 2, 0xaa], [0xbb, 21, 1]], [[1, 0, 2, 1, 0]]] true
+     let r1 := t0.read factsRx dec 4
+     let r2 := r1.2.2.extend.read factsRx dec 4
+     let r3 := r2.2.2.extend.read factsRx dec 4
+     (r1.1, r1.2.1) = ([], some .timeout) ∧ (r2.1, r2.2.1) = ([0xaa, 0xbb], some .timeout) ∧
+     (r3.1, r3.2.1) = ([], some .eof)) := by decide
 
 end Gotlcp.Props.C06
